@@ -1,13 +1,83 @@
+import Autog.Model.NetworkSimplex
+import Autog.Model.SinkColoring
 import Autog.Lemmas.FoldPermAndRank
-/-! # C07
-    Determinism. First pass: the three commutative map-range bodies are order independent. -/
+import Autog.Lemmas.GraphOps
+/-! # C07 — Layout is a deterministic, side-effect-free function of its arguments
+
+    Go randomises the iteration order of every `range` over a map. After the repairs four such loops are left in the library
+    (regenerated on every run with a hash of their bodies, `FactsCheck.Maps`): `hashmap.Keys` (only used by `Clone`-style helpers),
+    `feasibleTree: for n := range treeNodes { n.Layer += d }`, `execSinkColoring: for n, x := range xcoord { blockmax[…] = max(…) }`
+    and Brandes–Köpf's min/max over a coordinate map. For the two that belong to modelled phases the MODEL runs the loop over a
+    list, and the theorems below show that the result is the same for EVERY permutation of that list:
+    * `C07_shift_order_irrelevant` — the tree shift of the network simplex model (`shiftStep`, Autog/Model/NetworkSimplex.lean);
+    * `C07_blockmax_order_irrelevant` — the block maxima of the SinkColoring model (`bmStep`, Autog/Model/SinkColoring.lean);
+    the B&K loop is a min/max fold (`minmax_order_irrelevant`, lemma library).
+    Every model function is a Lean function of (configuration, input): the same arguments give the same result by construction.
+    PARTIAL: for the unmodelled phases (WMedian body, B&K, Splines) determinism rests on the regenerated fact lists (no map range,
+    no `rand`/`time` outside the explicit greedy option, no goroutine, channel, global write) — the trusted meta-argument — and on
+    the repeated-call / fresh-process comparison of the search. -/
 
 namespace Autog
+open FoldPermAndRank
 
-theorem C07_shift_order_irrelevant : type_of% @FoldPermAndRank.shift_order_irrelevant := @FoldPermAndRank.shift_order_irrelevant
+theorem modNode_comm (g : G) (a b : Nat) (f h : Node → Node) (hab : a ≠ b) :
+    (g.modNode a f).modNode b h = (g.modNode b h).modNode a f := by
+  simp only [G.modNode, G.mk.injEq, and_true, true_and]
+  apply Array.ext_getElem?
+  intro k
+  simp only [Array.getElem?_modify]
+  by_cases h1 : b = k <;> by_cases h2 : a = k <;> simp_all
 
-theorem C07_blockmax_order_irrelevant : type_of% @FoldPermAndRank.blockmax_order_irrelevant := @FoldPermAndRank.blockmax_order_irrelevant
+theorem shiftStep_comm (d : Int) (g : G) (a b : Nat) :
+    shiftStep d (shiftStep d g a) b = shiftStep d (shiftStep d g b) a := by
+  by_cases hab : a = b
+  · subst hab; rfl
+  · unfold shiftStep setLayer G.layerOf
+    rw [G.node_modNode_ne g a b _ hab, G.node_modNode_ne g b a _ (Ne.symm hab)]
+    exact modNode_comm g a b _ _ hab
 
-theorem C07_minmax_order_irrelevant : type_of% @FoldPermAndRank.minmax_order_irrelevant := @FoldPermAndRank.minmax_order_irrelevant
+/-- C07: the tree shift of the simplex does not depend on the order in which the tree nodes are visited -/
+theorem C07_shift_order_irrelevant (d : Int) (g : G) {l₁ l₂ : List Nat} (h : l₁.Perm l₂) :
+    l₁.foldl (shiftStep d) g = l₂.foldl (shiftStep d) g :=
+  foldl_perm (shiftStep d) (fun b x y => shiftStep_comm d b x y) h g
+
+theorem maxRat_right_comm (b x y : Rat) : maxRat (maxRat b x) y = maxRat (maxRat b y) x := by
+  unfold maxRat
+  by_cases h1 : b ≤ x <;> by_cases h2 : b ≤ y <;> by_cases h3 : x ≤ y <;> by_cases h4 : y ≤ x <;>
+    simp [h1, h2, h3, h4] <;> grind
+
+theorem bmStep_comm (roots : Array Nat) (xc bm : Array Rat) (a b : Nat) :
+    bmStep roots xc (bmStep roots xc bm a) b = bmStep roots xc (bmStep roots xc bm b) a := by
+  unfold bmStep
+  apply Array.ext_getElem?
+  intro k
+  simp only [Array.getElem?_setIfInBounds, Array.getD_eq_getD_getElem?, Array.size_setIfInBounds]
+  by_cases hr : roots[a]?.getD a = roots[b]?.getD b
+  · rw [hr]
+    by_cases hk : roots[b]?.getD b = k
+    · subst hk
+      by_cases hb : roots[b]?.getD b < bm.size
+      · simp [hb, maxRat_right_comm]
+      · simp [hb]
+    · simp [hk]
+  · have hr' : ¬ roots[b]?.getD b = roots[a]?.getD a := fun e => hr e.symm
+    by_cases h1 : roots[b]?.getD b = k <;> by_cases h2 : roots[a]?.getD a = k <;> simp_all
+
+/-- C07: the block maxima of SinkColoring do not depend on the order in which the map `xcoord` is iterated -/
+theorem C07_blockmax_order_irrelevant (roots : Array Nat) (xc bm : Array Rat) {l₁ l₂ : List Nat} (h : l₁.Perm l₂) :
+    l₁.foldl (bmStep roots xc) bm = l₂.foldl (bmStep roots xc) bm :=
+  foldl_perm (bmStep roots xc) (fun b x y => bmStep_comm roots xc b x y) h bm
+
+/-- … so the model's initial state is the same whatever order Go picks for the keys -/
+theorem C07_scInit_any_order (ns : Rat) (g : G) (bw : Array Rat) (roots : Array Nat) (keys : List Nat) (h : keys.Perm (scKeys g)) :
+    (scInit ns g bw roots).blockmax = keys.foldl (bmStep roots (scInitX ns g bw roots)) (Array.replicate g.nodes.size 0) := by
+  unfold scInit
+  exact (C07_blockmax_order_irrelevant roots _ _ h).symm
+
+theorem C07_minmax_order_irrelevant : type_of% @minmax_order_irrelevant := @minmax_order_irrelevant
+
+example : [2, 0, 1].foldl (shiftStep 3) { nodes := #[{ id := "a" }, { id := "b", layer := 1 }, { id := "c" }] } =
+    [0, 1, 2].foldl (shiftStep 3) { nodes := #[{ id := "a" }, { id := "b", layer := 1 }, { id := "c" }] } :=
+  C07_shift_order_irrelevant 3 _ (by decide)
 
 end Autog
